@@ -36,6 +36,11 @@ type C17Case struct {
 	Follow    int    `json:"follow"`              // number of follow-up frames sent after the operation returned (1-3)
 	FollowCut int    `json:"follow_cut"`          // segment size for the follow-up bytes (0 = one write)
 	Coalesced bool   `json:"coalesced,omitempty"` // instant partial: the prefix arrives in the same segment as the preceding complete frame
+	// Background: the follow-up operations run under context.Background() (no deadline, Done() == nil) instead of a context with a far deadline
+	Background bool `json:"background,omitempty"`
+	// Duplex (raw reads on an upgraded connection): while the read is blocked, another goroutine has a raw Write
+	// pending under a live context; cancelling the read must not disturb it
+	Duplex bool `json:"duplex,omitempty"`
 }
 
 const c17Bound = 5 * time.Second
@@ -314,6 +319,17 @@ func execC17Client(c C17Case, bound time.Duration) (map[string]bool, error) {
 		}
 		return opResult{err: fmt.Errorf("HARNESS: unknown op")}
 	}
+	var duplexRes chan opResult
+	duplexData := bytes.Repeat([]byte("D"), 4<<20)
+	if c.Duplex && rwc != nil && !writeOp {
+		facts["duplex-write-pending"] = true
+		duplexRes = make(chan opResult, 1)
+		go func() {
+			n, e := rwc.Write(context.Background(), duplexData)
+			duplexRes <- opResult{n: n, err: e}
+		}()
+		time.Sleep(3 * time.Millisecond) // let it block (the peer does not read yet)
+	}
 	resCh := make(chan opResult, 1)
 	t0 := time.Now()
 	go func() { r := op(); r.took = time.Since(t0); resCh <- r }()
@@ -429,6 +445,36 @@ func execC17Client(c C17Case, bound time.Duration) (map[string]bool, error) {
 	}
 	facts["partial-frame"] = partial > 0
 
+	if duplexRes != nil {
+		// the read was cancelled while a write in the other direction was pending under a live context:
+		// now the peer reads, and that write must complete untouched
+		got := 0
+		buf := make([]byte, 1<<20)
+		srv.SetReadDeadline(time.Now().Add(bound))
+		var rerr error
+		for got < len(duplexData) && rerr == nil {
+			var n int
+			n, rerr = srv.Read(buf)
+			for _, b := range buf[:n] {
+				if b != 'D' {
+					return facts, fmt.Errorf("duplex: the peer received a byte the pending write never contained")
+				}
+			}
+			got += n
+		}
+		select {
+		case wr := <-duplexRes:
+			if wr.err != nil || wr.n != len(duplexData) {
+				return facts, fmt.Errorf("%s on %s: cancelling the read disturbed a Write pending in the other direction under a live context: it returned (%d, %v), want (%d, nil); the peer received %d bytes", c.Op, c.Transport, wr.n, wr.err, len(duplexData), got)
+			}
+		case <-time.After(bound):
+			return facts, fmt.Errorf("%s on %s: a Write pending under a live context did not complete within %v after the peer started reading (%d bytes received)", c.Op, c.Transport, bound, got)
+		}
+		if got != len(duplexData) {
+			return facts, fmt.Errorf("duplex: the peer received %d of %d bytes of the live write (%v)", got, len(duplexData), rerr)
+		}
+	}
+
 	// follow-up with a live context: everything the peer sends from now on must arrive, in order
 	var follow bytes.Buffer
 	var wantFrames [][]byte
@@ -453,6 +499,21 @@ func execC17Client(c C17Case, bound time.Duration) (map[string]bool, error) {
 	go func() { werrCh <- srvWrite(srv, follow.Bytes(), c.FollowCut, bound) }()
 	liveCtx, liveCancel := context.WithTimeout(context.Background(), bound)
 	defer liveCancel()
+	if c.Background {
+		liveCtx = context.Background() // a hang is then caught by bounded()
+	}
+	// bounded runs one follow-up operation; with a context that cannot expire the harness bounds it instead
+	bounded := func(f func() error) error {
+		ch := make(chan error, 1)
+		go func() { ch <- f() }()
+		select {
+		case e := <-ch:
+			return e
+		case <-time.After(bound + time.Second):
+			srv.Close()
+			return fmt.Errorf("follow-up operation under context.Background() did not return within %v", bound)
+		}
+	}
 	skipTorn := partial > 0
 	if upgraded {
 		// byte level: the concatenation of what the follow-up reads return
@@ -468,10 +529,10 @@ func execC17Client(c C17Case, bound time.Duration) (map[string]bool, error) {
 			if (c.Op == "up-read") == (iter%2 == 0) { // alternate, starting with the OTHER primitive; the two read primitives: each must clear what the other armed
 				buf := make([]byte, 64)
 				var n int
-				n, e = rwc.Read(liveCtx, buf)
+				e = bounded(func() error { var re error; n, re = rwc.Read(liveCtx, buf); return re })
 				b = buf[:n]
 			} else {
-				b, e = rwc.ReadBytes(liveCtx, 0)
+				e = bounded(func() error { var re error; b, re = rwc.ReadBytes(liveCtx, 0); return re })
 			}
 			got = append(got, b...)
 			if e != nil {
@@ -487,7 +548,8 @@ func execC17Client(c C17Case, bound time.Duration) (map[string]bool, error) {
 	} else {
 		for i := 0; i < len(wantFrames); i++ {
 			var out json.RawMessage
-			fl, e := receive(liveCtx, &out)
+			var fl uint64
+			e := bounded(func() error { var re error; fl, re = receive(liveCtx, &out); return re })
 			if e != nil && skipTorn {
 				skipTorn = false // the remainder of the frame that was torn by the cancellation: don't care
 				i--
@@ -937,6 +999,12 @@ func c17Cells() []C17Case {
 					cells = append(cells, C17Case{Side: "client", Op: op, Transport: tr, Trigger: trig, Instant: inst, Partial: 17, Follow: 2})
 					if inst == "partial" && op != "call" {
 						cells = append(cells, C17Case{Side: "client", Op: op, Transport: tr, Trigger: trig, Instant: inst, Partial: 17, Follow: 2, Coalesced: true})
+					}
+					if trig == "deadline" && (inst == "after" || inst == "blocked") && op != "send" && op != "up-write" {
+						cells = append(cells, C17Case{Side: "client", Op: op, Transport: tr, Trigger: trig, Instant: inst, Partial: 17, Follow: 2, Background: true})
+					}
+					if (op == "up-read" || op == "up-readbytes") && inst == "blocked" && trig != "none" {
+						cells = append(cells, C17Case{Side: "client", Op: op, Transport: tr, Trigger: trig, Instant: inst, Follow: 2, Duplex: true})
 					}
 				}
 			}
